@@ -14,6 +14,7 @@ type Lexer struct {
 	hadWhitespace bool
 	hadNewline    bool // newline was seen before current token
 	lastNewLine   int  // position just after most recent newline
+	unterminated  bool // line mode: the line ended inside a string, more input is needed
 	lineNumber    int
 }
 
@@ -37,6 +38,12 @@ func (l *Lexer) EOLEOF() *token.Token {
 		return token.EOLT
 	}
 	return token.EOFT
+}
+
+// Unterminated reports (line mode) that the input ended inside a string: the end of line token
+// stands for "continuation needed", whatever the parser was doing when it met it.
+func (l *Lexer) Unterminated() bool {
+	return l.unterminated
 }
 
 func (l *Lexer) Pos() int {
@@ -115,6 +122,7 @@ func (l *Lexer) NextToken() *token.Token {
 		str, ok := l.readString(ch)
 		if !ok {
 			if l.lineMode {
+				l.unterminated = true
 				return token.EOLT // continuation needed
 			}
 			// complete input: an unterminated string is an error token holding the rest of the input
